@@ -532,6 +532,8 @@ void gen(uint64_t seed, int tier, sim::Plan &p) {
     if (part == 0) {
         int64_t L = r.pick(std::vector<int64_t>{0, 1, 31, 32, 33, 4095, 4096, 4097, 8192, 10000, -1});
         if (L < 0) L = r.range(0, tier ? 65536 : 20000);
+        const bool big_file = r.chance(tier ? 0.0004 : 0.0002);
+        if (big_file) L = ((int64_t)64 << 20) + r.pick(std::vector<int64_t>{1, 4097, 1 << 20, 6 << 20}); // pulled in 4 KiB at a time from a tiny hint
         p.cfg["content_len"] = L;
         p.cfg["reported_size_mode"] = r.pick(std::vector<int64_t>{0, 0, 0, 1, 2, 3, 4});
         p.cfg["size_delta"] = r.pick(std::vector<int64_t>{1, 2, 31, 32, 4096});
@@ -551,6 +553,12 @@ void gen(uint64_t seed, int tier, sim::Plan &p) {
         op.kind = OP_FILE;
         op.a = r.chance(0.5);
         op.b = r.pick(std::vector<int64_t>{0, 1, L > 0 ? L - 1 : 0, L, L + 1, 2 * L, 31, 32, 4096});
+        if (big_file) {
+            op.a = 1; op.b = r.pick(std::vector<int64_t>{0, 32, 4096});
+            p.cfg["fault"] = 0; fault = 0;
+            p.cfg["alloc_realloc"] = 1; p.cfg["alloc_move_permille"] = 0; p.cfg["chunk"] = 0; p.cfg["unbuffered"] = 0;
+            p.cfg["hang_scale"] = 3; p.cfg["soft_budget"] = 0; p.cfg["hard_budget"] = 0;
+        }
         if (fault == 4) {
             // "nothing to read right now" style errors as well, and errors that land exactly between two read requests of the call (the request
             // sizes follow the buffer's capacity: hint, hint + 1, twice that, ...), so that a whole request comes back empty-handed
